@@ -2,3 +2,6 @@ import SockModel.Basic
 import SockModel.Drive.Common
 import SockModel.Drive.C10
 import SockModel.Props.C10
+import SockModel.Drive.C06
+import SockModel.Props.C06
+import SockModel.Generated.Consts
